@@ -604,6 +604,13 @@ class Interp:
                     return ns
                 raise Unsupported(f"import {dotted} is not modelled")
             _, module, orig, level = imp
+            # `from . import sub` / `from .pkg import sub`: submodule takes precedence when it exists
+            subfile = repo.resolve_relative(mod, (module + "." if module else "") + orig, level) if level > 0 else None
+            if subfile is not None:
+                pkg = repo.resolve_relative(mod, module, level)
+                pm = repo.load_module(pkg) if pkg else None
+                if pm is None or (orig not in pm.functions and orig not in pm.classes and orig not in pm.assigns):
+                    return RepoModuleV(repo.load_module(subfile))
             target = repo.resolve_relative(mod, module, level)
             if target is None:
                 dotted = module
